@@ -31,8 +31,8 @@ fn nonassertion(rng: &mut Rng, case: u64) -> Envelope {
     }
 }
 
-pub const OPS: [&str; 33] = [
-    "add_nonassertion_envelope", "add_nonassertion_salted", "add_nonassertion_optional", "add_nonassertion_batch", "replace_with_nonassertion", "add_nonassertion_if", "add", "add_duplicate", "add_salted", "add_envelope_obscured", "remove_existing", "remove_absent", "remove_all", "replace_assertion", "replace_subject_leaf",
+pub const OPS: [&str; 35] = [
+    "attachments_container_reapply", "attachments_container_extend", "add_nonassertion_envelope", "add_nonassertion_salted", "add_nonassertion_optional", "add_nonassertion_batch", "replace_with_nonassertion", "add_nonassertion_if", "add", "add_duplicate", "add_salted", "add_envelope_obscured", "remove_existing", "remove_absent", "remove_all", "replace_assertion", "replace_subject_leaf",
     "replace_subject_node", "replace_subject_obscured", "wrap", "unwrap", "elide_some", "elide_revealing", "compress", "compress_subject", "uncompress", "uncompress_subject",
     "encrypt_subject", "decrypt_subject", "add_salt", "add_signature", "add_recipient", "add_type", "add_attachment", "encode_decode",
 ];
@@ -70,6 +70,19 @@ pub fn run(ctx: &mut Ctx) {
                     }
                     // offering something that is not an assertion must fail (or at least never produce a
                     // node with a non-assertion element - judged by S1 on whatever comes back)
+                    // the Attachments container: read the attachments, put them (plus one more) back
+                    "attachments_container_reapply" => {
+                        let c = bc_envelope::Attachments::try_from_envelope(&cur).ok()?;
+                        if c.is_empty() {
+                            return None;
+                        }
+                        Some(c.add_to_envelope(cur.clone()))
+                    }
+                    "attachments_container_extend" => {
+                        let mut c = bc_envelope::Attachments::try_from_envelope(&cur).ok()?;
+                        c.add(small_part(rng, case), "com.example.container", None::<&str>);
+                        Some(c.add_to_envelope(cur.clone()))
+                    }
                     "add_nonassertion_envelope" => cur.add_assertion_envelope(nonassertion(rng, case)).ok(),
                     "add_nonassertion_salted" => cur.add_assertion_envelope_salted(nonassertion(rng, case), rng.chance(1, 2)).ok(),
                     "add_nonassertion_optional" => {
